@@ -43,6 +43,7 @@ var pools map[*value][]value
 
 func resetEnv() {
 	pools = map[*value][]value{}
+	resetLockset()
 	resetFS()
 	resetSched()
 }
@@ -334,6 +335,7 @@ func extPoolGet(fr *frame, args []value) value {
 	if l := pools[p]; len(l) > 0 {
 		v := l[len(l)-1]
 		pools[p] = l[:len(l)-1]
+		lsForget(v, 0) // a pool hand-over orders the previous user's accesses before the next user's
 		return v
 	}
 	st := (*p).(structure)
